@@ -41,11 +41,13 @@ HOSTILE = [
     0.0, -1.0, 2.5, 1234567.0, 1e-5, -3.7, 255.0, 40000.0,
     'abc', '', '12', ' x ', '2020-01-01', 'TRUE', '#N/A',
     '\u4e2d\u6587', '\u0416x', 'a\nb', 171.0, 300.0,
+    '1/1/99999', '10000-01-01', '31/12/1899', '1e400', 1e308, -1e308,
     True, False, sh.EMPTY,
     E('#N/A'), E('#DIV/0!'), E('#VALUE!'), E('#REF!'),
     [[5.0]], [[1.0, 'a', True]], [[1.0], [E('#N/A')], [sh.EMPTY]],
     [[1.0, 2.0], [3.0, sh.EMPTY]], [[1.0, 2.0, 3.0], [4.0, 5.0, 6.0], [7.0, 8.0, 9.0]],
     [['a', 'b'], ['c', E('#DIV/0!')]],
+    [[1e308, 1e308]], [[-1e308], [-1e308]],
 ]
 
 # (function, argument position) pairs whose error argument need not surface
